@@ -1,7 +1,8 @@
 from _common import COMMON_NOTE
 
 META = {'title': 'Loading a well-formed SNA/SZX/SCR file yields exactly the described state',
- 'lean_modules': ['ZxVerif.Props.C14'],
+ 'lean_modules': ['ZxVerif.Props.C14', 'ZxVerif.Props.C14X'],
+ 'extract': ['SzxLayout', 'SnaLayout'],
  'modelled_code': ['rustzx-core/src/emulator/snapshot/szx.rs (load, process_z80r/spcr/ay/keyb/amxm/ramp/crtr_block)',
                    'rustzx-core/src/emulator/snapshot/sna.rs (load)',
                    'rustzx-core/src/emulator/screenshot/scr.rs (load)',
